@@ -3,6 +3,27 @@ CHECKS["C12"] = dict(
     units=[unit("c12", "./verifx/c12", "^TestC12", shards=(8, 16), timeout=(600, 3000)),
            unit("c12fuzz", "./verifx/c12", "^$", fuzz="FuzzC12Decode", fuzztime={"quick": 20, "thorough": 180}, fuzzworkers=8,
                 tiers=("thorough",), timeout=(300, 900))],
-    rule="tbd",
-    assumptions=[],
+    rule=("round trip: rapid-generated objects of every message type (block as served by RequestBlock, proposal +/- AggQC with proposer and "
+          "message ID filled from the authenticated peer as server.go does, vote, QC, TC, AggQC with 0..n entries incl. foreign ids, "
+          "SyncInfo in all 8 presence combinations, timeout +/- MsgSignature) built from real keys of the 3 schemes, n in 1..7, 1..n signers in "
+          "arbitrary order, signed correctly or not, parents/QC targets genesis / stored blocks / unknown, nil / empty / small / 5000-command "
+          "batches, 64 KiB commands, views/ids/sequence numbers at the integer boundaries, timestamps over the whole protobuf range in UTC / fixed "
+          "zone / local zone / the unmodified time.Now() of NewBlock; through proto.Marshal/Unmarshal and the To/From converters; compared on "
+          "Hash(), ToBytes(), ordered participants, presence of optional parts and the verdict of another replica's cert.Authority. "
+          "TestC12Shapes enumerates every presence combination per scheme with honest quorum signatures. "
+          "sensitivity: one-component changes (parent, proposer, view, batch append/drop/edit/swap, timestamp deltas 1 ns .. 2^64 ns, embedded QC "
+          "hash / view / signature re-signed, other message, reordered, re-attributed, added, removed) must change Hash() and ToBytes() of a block, "
+          "also after the changed block crossed the wire; id / view / QC changes must change a timeout's bytes-to-sign; view / hash changes a QC's "
+          "ToBytes(); an AggregateQC with a re-attributed entry must not verify under the old aggregate signature. "
+          "decode stability: honest encodings with structure-aware field edits, byte edits, read as another message type, and free bytes: "
+          "decode(encode(decode(b))) == decode(b); FuzzC12Decode (thorough) is the coverage-guided version seeded with honest messages. "
+          "non-trivial = the object has an optional part present and another absent, or a boundary value (round trip); the change really "
+          "changed the component (sensitivity); the bytes decoded and were not an untouched honest encoding (decode). distinct = by shape "
+          "(kind, scheme, n, presence bits, signer-set class, boundary flags, verdict) for the round trip, by case otherwise."),
+    assumptions=["proto.Marshal/Unmarshal of google.golang.org/protobuf stand in for the gorums transport codec (gorums uses the same library)",
+                 "qspec.RequestBlockQF is exercised by the C13 check, not here",
+                 "Kauri mode (proposer id taken from the wire instead of the peer) is not generated",
+                 "VerifyAnyQC is compared only where its verdict is a function of the proposal (see notes/C12-findings.md)",
+                 "inputs that hit nil dereferences on absent fields (Proposal without Block, PartialCert without decodable signature, "
+                 "ToBytes of a signature-less certificate) are excluded by inspection: property C10"],
 )
